@@ -1058,6 +1058,19 @@ def m_from_elem(it, argv, text):
 def m_extend(it, argv, text):
     r = argv[0]
     v = it.load(r.addr)
+    if isinstance(v, MapV):
+        # <HashSet/HashMap/BTree* as Extend>::extend resolved through the trait: dispatch on the receiver
+        for k in ('BTreeSet::extend', 'HashSet::extend'):
+            if k in MODELS and ('BTree' in text) == k.startswith('BTree'):
+                return MODELS[k](it, argv, text)
+        return MODELS['HashSet::extend'](it, argv, text)
+    if isinstance(v, StrV):
+        out = v.b
+        for x in drain(it, m_into_iter(it, [argv[1]], text)):
+            x = it.deref_all(x)
+            out = out + (x.b if isinstance(x, StrV) else (x,) if not isinstance(x, int) or x < 128 else tuple(chr(x).encode()))
+        it.store(r.addr, StrV(out))
+        return UNIT
     items = drain(it, m_into_iter(it, [argv[1]], text))
     it.store(r.addr, VecV(v.e + tuple(items)))
     return UNIT
